@@ -7,6 +7,7 @@ AS_H = 'src/tbb/arena_slot.h'
 TD_CPP = 'src/tbb/task_dispatcher.cpp'
 PF_H = 'include/oneapi/tbb/parallel_for.h'
 MB_H = 'src/tbb/mailbox.h'
+AR_CPP = 'src/tbb/arena.cpp'
 FGJ_H = 'include/oneapi/tbb/detail/_flow_graph_join_impl.h'
 FG_H = 'include/oneapi/tbb/flow_graph.h'
 FGN_H = 'include/oneapi/tbb/detail/_flow_graph_node_impl.h'
@@ -573,6 +574,38 @@ MUTANTS = [
     dict(name='c15-indexer-wrong-tag', prop='C15', clause='D5', edits=[
         ('include/oneapi/tbb/detail/_flow_graph_indexer_impl.h', "            auto indexer_node_put_task = do_try_put<IndexerNodeBaseType, T, N-1>;\n            std::get<N-1>(my_input).set_up(p, indexer_node_put_task, g);\n            indexer_helper<TupleTypes,N-1>",
          "            auto indexer_node_put_task = do_try_put<IndexerNodeBaseType, T, 0>;\n            std::get<N-1>(my_input).set_up(p, indexer_node_put_task, g);\n            indexer_helper<TupleTypes,N-1>")]),
+    # ---------------------------------------------------------------- C16
+    dict(name='c16-try_occupy-store', prop='C16', clause='D1', edits=[
+        (AS_H, "        return !is_occupied() && my_is_occupied.exchange(true) == false;", "        return !is_occupied() && (my_is_occupied.store(true), true);")]),
+    dict(name='c16-worker-from-slot-0', prop='C16', clause='D2', edits=[
+        (AR_CPP, "        index = occupy_free_slot_in_range(tls, my_num_reserved_slots, my_num_slots );", "        index = occupy_free_slot_in_range(tls, 0, my_num_slots );")]),
+    dict(name='c16-steal-ignores-isolation', prop='C16', clause='D4', edits=[
+        (AS_CPP, "            if (isolation == no_isolation || isolation == task_accessor::isolation(*result)) {", "            {")]),
+    dict(name='c16-nested-no-release', prop='C16', clause='D1', edits=[
+        (AR_CPP, "            td.leave_task_dispatcher();\n            td.my_arena_slot->release();\n            td.my_arena->my_exit_monitors.notify_one(); // do not relax!",
+         "            td.leave_task_dispatcher();\n            td.my_arena->my_exit_monitors.notify_one(); // do not relax!")]),
+    dict(name='c16-process-early-return-keeps-slot', prop='C16', clause='D1', edits=[
+        (AR_CPP, "    tls.my_inbox.set_is_idle(true);\n    if (tls.my_arena_slot->is_task_pool_published()) {\n        tls.my_inbox.set_is_idle(false);\n    }",
+         "    tls.my_inbox.set_is_idle(true);\n    if (tls.my_arena_slot->is_task_pool_published()) {\n        tls.my_inbox.set_is_idle(false);\n    }\n    if (my_max_num_workers == 0) { on_thread_leaving(ref_worker); return; }")]),
+    dict(name='c16-exit-observers-after-release', prop='C16', clause='D3', edits=[
+        (AR_CPP, "    my_observers.notify_exit_observers(tls.my_last_observer, tls.my_is_worker);\n    tls.my_last_observer = nullptr;\n\n    tls.leave_task_dispatcher();\n\n    // Arena slot detach (arena may be used in market::process)\n    // TODO: Consider moving several calls below into a new method(e.g.detach_arena).\n    tls.my_arena_slot->release();",
+         "    tls.leave_task_dispatcher();\n\n    // Arena slot detach (arena may be used in market::process)\n    // TODO: Consider moving several calls below into a new method(e.g.detach_arena).\n    tls.my_arena_slot->release();\n    my_observers.notify_exit_observers(tls.my_last_observer, tls.my_is_worker);\n    tls.my_last_observer = nullptr;")]),
+    dict(name='c16-fifo-under-isolation', prop='C16', clause='D4', edits=[
+        (TDH, "        else if (fifo_allowed && isolation == no_isolation\n                 && (t = get_stream_or_critical_task(ed, a, fifo_stream, fifo_hint, isolation, critical_allowed))) {",
+         "        else if (fifo_allowed\n                 && (t = get_stream_or_critical_task(ed, a, fifo_stream, fifo_hint, isolation, critical_allowed))) {")]),
+    dict(name='c16-isolate-no-restore-on-throw', prop='C16', clause='D4', edits=[
+        (AR_CPP, "    }).on_completion([&] {\n        __TBB_ASSERT(governor::get_thread_data()->my_task_dispatcher == dispatcher, nullptr);\n        dispatcher->set_isolation(previous_isolation);\n    });",
+         "    }).on_exception([&] {\n    });\n    dispatcher->set_isolation(previous_isolation);")]),
+    dict(name='c16-market-demand-unlocked', prop='C16', clause='D5', edits=[
+        ('src/tbb/market.cpp', "    int delta{};\n    {\n        mutex_type::scoped_lock lock(my_mutex);\n        // Update client's state\n        delta = c.update_request(mandatory_delta, workers_delta);\n",
+         "    int delta{};\n    {\n        // Update client's state\n        delta = c.update_request(mandatory_delta, workers_delta);\n        mutex_type::scoped_lock lock(my_mutex);\n"),
+        ('src/tbb/market.cpp', "        // Update market's state\n        my_total_demand += delta;", "        // Update market's state\n        lock.release(); my_total_demand += delta; lock.acquire(my_mutex);")]),
+    dict(name='c16-parallelism-prefers-max', prop='C16', clause='D5', edits=[
+        ('src/tbb/global_control.cpp', "        return a<b; // prefer min allowed parallelism", "        return a>b; // prefer min allowed parallelism")]),
+    dict(name='c16-parallelism-no-minus-one', prop='C16', clause='D5', edits=[
+        ('src/tbb/global_control.cpp', "        threading_control::set_active_num_workers(my_active_value - 1);", "        threading_control::set_active_num_workers(my_active_value);")]),
+    dict(name='c16-join-unconditionally', prop='C16', clause='D6', edits=[
+        (AR_CPP, "    if (is_joinable()) {\n        my_references += arena::ref_worker;\n        return true;\n    }\n    return false;", "    my_references += arena::ref_worker;\n    return true;")]),
 ]
 
 BENIGN = [
@@ -620,4 +653,6 @@ BENIGN = [
          "            case rem_pred:\n                my_predecessors.remove(*(tmp->r));\n                tmp->status.store(SUCCEEDED);\n                break;")]),
     dict(name='c15-b-limiter-check-conditions', prop='C15', edits=[
         (FG_H, "            if ( my_count + my_tries >= my_threshold )\n                return nullptr;\n            else\n                ++my_tries;", "            if ( !(my_count + my_tries < my_threshold) )\n                return nullptr;\n            else\n                ++my_tries;")]),
+    dict(name='c16-b-try_occupy-cas', prop='C16', edits=[
+        (AS_H, "        return !is_occupied() && my_is_occupied.exchange(true) == false;", "        bool e = false;\n        return !is_occupied() && my_is_occupied.compare_exchange_strong(e, true);")]),
 ]
